@@ -2077,7 +2077,26 @@ def connection_sequence(ctx, mir, stats):
             continue
         n_true += 1
         st = [(k, e) for k, e in enumerate(p.events) if e[0] == "assign" and re.search(r"\(\(\*_1\)\.\d+: std::option::Option<u32>\)$", e[2].strip())]
-        oks = any('const "shareId"' in resolve_source(p.events, k + 1, e[3], depth=14) for k, e in st)
+
+        def fresh_some(k, rhs):
+            # the stored value must be Some(<the wire field>) built right here, not a merge with the old value
+            cur = rhs
+            for _ in range(6):
+                m = re.match(r"(?:move|copy) (_\d+)$", cur.strip())
+                if not m:
+                    break
+                nxt = None
+                for e2 in p.events[:k]:
+                    if e2[0] == "assign" and e2[2].strip() == m.group(1):
+                        nxt = e2[3]
+                    if e2[0] == "call" and e2[5] == m.group(1):
+                        nxt = "CALL " + e2[2]
+                if nxt is None:
+                    break
+                cur = nxt
+            mm = re.match(r"Option::<u32>::Some\(((?:move|copy) _\d+)\)$", cur.strip())
+            return bool(mm) and 'const "shareId"' in resolve_source(p.events, k, mm.group(1), depth=14)
+        oks = any(fresh_some(k, e[3]) for k, e in st)
         obs.append({"id": "read_demand_active_pdu:share-id-refreshed", "ok": oks, "functions": [da.name],
                     "detail": "every accepted demand-active stores the share id it carries (used by the confirm-active and finalization PDUs)" if oks else "an accepted demand-active does not update the stored share id (stale id after a reactivation)", "where": da.name})
     if n_true == 0:
